@@ -97,6 +97,9 @@ class SimEvent(object):
             h = np.asarray(y).reshape(-1)[self.comp]
         elif self.kind == "time":
             h = np.asarray(t)
+        elif self.kind == "tsin":
+            # periodic pure-time event: sin(w (t - c0)) with exactly known roots c0 + n pi / w  (c plays the role of the level, 0 here)
+            h = np.sin(self.desc["w"] * (np.asarray(t) - self.desc["c0"]))
         else:
             h = np.asarray(dy).reshape(-1)[self.comp]
         return self.scale * (h - self.c)
